@@ -7,6 +7,10 @@ package c19
 import (
 	"context"
 	"fmt"
+	"github.com/cosi-project/runtime/api/v1alpha1"
+	"github.com/cosi-project/runtime/pkg/resource/meta"
+	"github.com/cosi-project/runtime/pkg/resource/protobuf"
+	"github.com/cosi-project/runtime/pkg/resource/typed"
 	"regexp"
 	"sort"
 	"strings"
@@ -54,9 +58,49 @@ type Line struct {
 const ns = "n1"
 
 // full is a complete, canonical rendering of a resource (everything a caller can mutate).
+// Resources whose spec is a protobuf message (protobuf.ResourceSpec): the stacks "inmem-pb" and "cache-pb" run the same programs
+// on this type. The base value of the spec is the EMPTY message (a marker resource), "spec" mutations set a field.
+const pbType = resource.Type("PbMarkers.verif.cosi.dev")
+
+type pbSpec = protobuf.ResourceSpec[v1alpha1.Metadata, *v1alpha1.Metadata]
+
+type pbExt struct{}
+
+func (pbExt) ResourceDefinition() meta.ResourceDefinitionSpec {
+	return meta.ResourceDefinitionSpec{Type: pbType, DefaultNamespace: ns}
+}
+
+type pbRes = typed.Resource[pbSpec, pbExt]
+
+// curType is the resource type of the program that is running (programs run one after the other).
+var curType = resource.Type(vh.IntType)
+
+func mkRes(key vh.Key, o vh.Obj) resource.Resource {
+	if curType != pbType {
+		return vh.NewRes(key, o)
+	}
+
+	r := typed.NewResource[pbSpec, pbExt](resource.NewMetadata(key.NS, pbType, key.ID, resource.VersionUndefined), protobuf.NewResourceSpec(&v1alpha1.Metadata{}))
+	r.Metadata().SetPhase(vh.PhaseOf(o.Phase))
+
+	for _, f := range o.Fins {
+		r.Metadata().Finalizers().Add(f)
+	}
+
+	for _, l := range o.Labels {
+		r.Metadata().Labels().Set(l[0], l[1])
+	}
+
+	return r
+}
+
 func full(r resource.Resource) string {
 	if r == nil {
 		return "nil"
+	}
+
+	if pr, ok := r.(*pbRes); ok {
+		return fullMd(r.Metadata()) + fmt.Sprintf(" spec=pb(%s)", pr.TypedSpec().Value.GetOwner())
 	}
 
 	return fullMd(r.Metadata()) + fmt.Sprintf(" spec=%d", vh.SpecOf(r))
@@ -151,6 +195,10 @@ func mutate(md *resource.Metadata, res resource.Resource, field string) {
 		if ir, ok := res.(*conformance.IntResource); ok {
 			ir.SetValue(ir.Value() + 1000)
 		}
+
+		if pr, ok := res.(*pbRes); ok {
+			pr.TypedSpec().Value.Owner = tag
+		}
 	}
 }
 
@@ -165,7 +213,7 @@ type stack struct {
 }
 
 func (s *stack) snapshot(ctx context.Context) string {
-	l, err := s.base.List(ctx, resource.NewMetadata(ns, vh.IntType, "", resource.VersionUndefined))
+	l, err := s.base.List(ctx, resource.NewMetadata(ns, curType, "", resource.VersionUndefined))
 	if err != nil {
 		return "!" + err.Error()
 	}
@@ -205,13 +253,13 @@ func newStack(t *testing.T, ctx context.Context, name string) *stack {
 	case "remote":
 		_, cl := vh.NewRemote(t, base)
 		s.st = state.WrapCore(cl)
-	case "cache":
-		s.cache = verif.NewResourceCache([]options.CachedResource{{Namespace: ns, Type: vh.IntType}})
-		s.cache.MarkBootstrapped(ns, vh.IntType)
+	case "cache", "cache-pb":
+		s.cache = verif.NewResourceCache([]options.CachedResource{{Namespace: ns, Type: curType}})
+		s.cache.MarkBootstrapped(ns, curType)
 	}
 
 	ch := make(chan state.Event, 256)
-	if err := base.WatchKind(ctx, resource.NewMetadata(ns, vh.IntType, "", resource.VersionUndefined), ch); err != nil {
+	if err := base.WatchKind(ctx, resource.NewMetadata(ns, curType, "", resource.VersionUndefined), ch); err != nil {
 		t.Fatal(err)
 	}
 
@@ -256,7 +304,7 @@ func (s *stack) get(ctx context.Context, ptr resource.Pointer) (resource.Resourc
 }
 
 func (s *stack) list(ctx context.Context, opts ...state.ListOption) (resource.List, error) {
-	kind := resource.NewMetadata(ns, vh.IntType, "", resource.VersionUndefined)
+	kind := resource.NewMetadata(ns, curType, "", resource.VersionUndefined)
 	if s.cache != nil {
 		return s.cache.List(ctx, kind, opts...)
 	}
@@ -267,6 +315,11 @@ func (s *stack) list(ctx context.Context, opts ...state.ListOption) (resource.Li
 func runProgram(t *testing.T, tr *vh.Trace, tid string, stackName string, prog []Cmd) {
 	ctx, cancel := context.WithCancel(context.Background())
 	defer cancel()
+
+	curType = vh.IntType
+	if strings.HasSuffix(stackName, "-pb") {
+		curType = pbType
+	}
 
 	s := newStack(t, ctx, stackName)
 	hs := map[int]held{}
@@ -300,7 +353,7 @@ func runProgram(t *testing.T, tr *vh.Trace, tid string, stackName string, prog [
 	}
 
 	for _, c := range prog {
-		key := vh.Key{NS: ns, Typ: vh.IntType, ID: c.K}
+		key := vh.Key{NS: ns, Typ: curType, ID: c.K}
 
 		switch c.Op {
 		case "create":
@@ -311,7 +364,7 @@ func runProgram(t *testing.T, tr *vh.Trace, tid string, stackName string, prog [
 				fins = []string{"basefin", "f2", "f3"}
 			}
 
-			r := vh.NewRes(key, vh.Obj{Spec: 1, Phase: "running", Labels: [][2]string{{"base", "1"}}, Fins: fins})
+			r := mkRes(key, vh.Obj{Spec: 1, Phase: "running", Labels: [][2]string{{"base", "1"}}, Fins: fins})
 			r.Metadata().Annotations().Set("base", "1")
 
 			if err := s.st.Create(ctx, r); err == nil {
@@ -382,7 +435,7 @@ func runProgram(t *testing.T, tr *vh.Trace, tid string, stackName string, prog [
 		case "modify":
 			var captured resource.Resource
 
-			err := s.st.Modify(ctx, vh.NewRes(key, vh.Obj{Spec: 1, Phase: "running"}), func(r resource.Resource) error {
+			err := s.st.Modify(ctx, mkRes(key, vh.Obj{Spec: 1, Phase: "running"}), func(r resource.Resource) error {
 				mutN++
 				r.Metadata().Labels().Set("mod", fmt.Sprint(mutN))
 				captured = r
@@ -486,9 +539,9 @@ func TestAlias(t *testing.T) {
 
 	defer tr.Close() //nolint:errcheck
 
-	stacks := []string{"inmem", "remote", "cache"}
+	stacks := []string{"inmem", "remote", "cache", "inmem-pb", "cache-pb"}
 
 	for i, p := range progs {
-		runProgram(t, tr, fmt.Sprintf("%s#%d", stacks[i%3], i), stacks[i%3], p)
+		runProgram(t, tr, fmt.Sprintf("%s#%d", stacks[i%len(stacks)], i), stacks[i%len(stacks)], p)
 	}
 }
